@@ -454,10 +454,10 @@ pub fn run(tier: Tier) -> i32 {
     run.generated("policy-arithmetic", &a, tier.pick(100_000, 2_000_000));
     let p = Growth;
     run.replays("reader-vs-recording-policy", &p);
-    run.generated("reader-vs-recording-policy", &p, tier.pick(80_000, 3_000_000));
+    run.generated("reader-vs-recording-policy", &p, tier.pick(160_000, 3_000_000));
     let l = LongStreams;
     run.replays("long-streams", &l);
-    run.generated("long-streams", &l, tier.pick(300, 10_000));
+    run.generated("long-streams", &l, tier.pick(1_000, 10_000));
     run.finish(
         RULE,
         &[
